@@ -3,7 +3,7 @@
    (in order), keep every operand of the stack available (same length, same members), and the emitted code
    realises the new stack map on the machine with all SWAP indices <= 16. *)
 From Coq Require Import ZArith List Bool Lia.
-From Verif Require Import Base.PyInt C14S.PyList C14S.StackSpec C14S.StackSpecProofs C14S.Spill C14S.SpillProofs.
+From Verif Require Import Base.PyInt C14S.PyList C14S.StackSpec C14S.StackSpecProofs C14S.Spill C14S.SpillProofs C14S.SpillInv.
 Import ListNotations.
 Open Scope Z_scope.
 
@@ -55,6 +55,7 @@ Lemma sp_swap_any : forall depth a m s,
     sp_swap false depth a m s = Ok (a ++ new, (if depth =? 0 then m else st_swap m depth), s', c) /\
     view (if depth =? 0 then m else st_swap m depth) = swap_view (pos depth) (view m) /\
     forallb depth_ok new = true /\ sp_inv s' /\
+    (forall d, live_inv s d -> live_inv s' d) /\
     forall mm, exists mm', run new (view m, mm) = Some (swap_view (pos depth) (view m), mm').
 Proof.
   intros depth a m s Hi Hv. destruct (Z.eqb_spec depth 0) as [E|E].
@@ -62,10 +63,11 @@ Proof.
     assert (Hs : swap_view (pos 0) (view m) = view m).
     { unfold swap_view, pos. simpl. destruct (view m) eqn:V; [|reflexivity].
       exfalso. destruct Hv as [_ H]. rewrite <- zlen_view, V in H. unfold zlen in H. simpl in H. lia. }
-    rewrite Hs. split; [reflexivity|]. split; [reflexivity|]. split; [exact Hi|]. intros mm. exists mm. reflexivity.
+    rewrite Hs. split; [reflexivity|]. split; [reflexivity|]. split; [exact Hi|]. split; [auto|]. intros mm. exists mm. reflexivity.
   - assert (Hneg : depth < 0) by (destruct Hv; lia).
     destruct (spill_swap_correct_thm depth a m s Hi Hv Hneg) as [new [s' [c [E1 [D [I' [_ [_ [_ R]]]]]]]]].
     exists new, s', c. split; [exact E1|]. split; [apply swap_view_any; assumption|]. split; [exact D|]. split; [exact I'|].
+    split; [intros d Ld; exact (swap_keeps_live_thm depth a m s d _ _ _ _ Ld Hv Hneg E1)|].
     intros mm. destruct (R mm) as [mm' [R1 _]]. exists mm'. rewrite R1. rewrite (swap_view_any m depth Hv Hneg). reflexivity.
 Qed.
 
@@ -84,13 +86,13 @@ Theorem place_correct_gen : forall rest done a m s cost,
   exists new m' s' cost',
     place Z.eqb false (Z.of_nat n) rest (Z.of_nat (length done)) a m s cost = Ok (a ++ new, m', s', cost') /\
     placed n allops (view m') /\ length m' = length m /\ (forall x, In x m -> In x m') /\
-    forallb depth_ok new = true /\ sp_inv s' /\
+    forallb depth_ok new = true /\ sp_inv s' /\ (forall d, live_inv s d -> live_inv s' d) /\
     forall mm, exists mm', run new (view m, mm) = Some (view m', mm').
 Proof.
   induction rest as [|op rest IH]; intros done a m s cost allops n Hi Hnd Hin Hlen Hpl.
   - exists [], m, s, cost. simpl. rewrite app_nil_r.
     split; [reflexivity|]. split; [unfold allops; rewrite app_nil_r; exact Hpl|]. split; [reflexivity|].
-    split; [auto|]. split; [reflexivity|]. split; [exact Hi|]. intros mm. exists mm. reflexivity.
+    split; [auto|]. split; [reflexivity|]. split; [exact Hi|]. split; [auto|]. intros mm. exists mm. reflexivity.
   - set (i := length done).
     assert (Hn : n = (i + S (length rest))%nat) by (unfold n, allops, i; rewrite app_length; reflexivity).
     assert (Hop_in : In op m) by (apply Hin; left; reflexivity).
@@ -105,15 +107,16 @@ Proof.
     assert (Step : forall a1 m1 s1 cost1 new1,
       sp_inv s1 -> length m1 = length m -> (forall x, In x m -> In x m1) ->
       placed n (done ++ [op]) (view m1) -> forallb depth_ok new1 = true -> a1 = a ++ new1 ->
+      (forall d, live_inv s d -> live_inv s1 d) ->
       (forall mm, exists mm', run new1 (view m, mm) = Some (view m1, mm')) ->
       exists new m' s' cost',
         place Z.eqb false (Z.of_nat n) rest (Z.of_nat i + 1) a1 m1 s1 cost1 = Ok (a ++ new, m', s', cost') /\
         placed n allops (view m') /\ length m' = length m /\ (forall x, In x m -> In x m') /\
-        forallb depth_ok new = true /\ sp_inv s' /\
+        forallb depth_ok new = true /\ sp_inv s' /\ (forall d, live_inv s d -> live_inv s' d) /\
         forall mm, exists mm', run new (view m, mm) = Some (view m', mm')).
-    { intros a1 m1 s1 cost1 new1 I1 L1 In1 P1 D1 Ea R1.
+    { intros a1 m1 s1 cost1 new1 I1 L1 In1 P1 D1 Ea K1 R1.
       assert (Eall : (done ++ [op]) ++ rest = allops) by (unfold allops; rewrite <- app_assoc; reflexivity).
-      destruct (IH (done ++ [op]) a1 m1 s1 cost1) as [new2 [m' [s' [cost' [E2 [P2 [L2 [In2 [D2 [I2 R2]]]]]]]]]].
+      destruct (IH (done ++ [op]) a1 m1 s1 cost1) as [new2 [m' [s' [cost' [E2 [P2 [L2 [In2 [D2 [I2 [K2 R2]]]]]]]]]]].
       - exact I1.
       - rewrite Eall. exact Hnd.
       - intros x Hx. apply In1. apply Hin. right. exact Hx.
@@ -125,6 +128,7 @@ Proof.
         exists (new1 ++ new2), m', s', cost'. subst a1. rewrite <- app_assoc in E2.
         split; [exact E2|]. split; [exact P2|]. split; [lia|]. split; [intros x Hx; apply In2; apply In1; exact Hx|].
         split; [rewrite forallb_app, D1, D2; reflexivity|]. split; [exact I2|].
+        split; [intros d0 Ld; apply K2; apply K1; exact Ld|].
         intros mm. destruct (R1 mm) as [mm1 Q1]. destruct (R2 mm1) as [mm2 Q2]. exists mm2.
         rewrite run_app, Q1. exact Q2. }
     (* extend `placed` by one position *)
@@ -161,7 +165,7 @@ Proof.
         -- rewrite app_nil_r. reflexivity.
         -- intros mm. exists mm. reflexivity.
       * (* swap the operand to the top, then into its final position *)
-        destruct (sp_swap_any depth a m s Hi Vd) as [new1 [s1 [c1 [E1 [V1 [D1 [I1 R1]]]]]]].
+        destruct (sp_swap_any depth a m s Hi Vd) as [new1 [s1 [c1 [E1 [V1 [D1 [I1 [K1 R1]]]]]]]].
         set (m1 := if depth =? 0 then m else st_swap m depth) in *.
         assert (Lv : (pos depth < length (view m))%nat).
         { rewrite length_view. destruct Vd. unfold pos, zlen in *. lia. }
@@ -169,7 +173,7 @@ Proof.
         { rewrite <- (length_view m1), V1, length_swap_view, length_view. reflexivity. }
         assert (Vf1' : valid_depth m1 final) by (destruct Vf; split; [assumption|unfold zlen in *; rewrite L1; assumption]).
         rewrite E1.
-        destruct (sp_swap_any final (a ++ new1) m1 s1 I1 Vf1') as [new2 [s2 [c2 [E2 [V2 [D2 [I2 R2]]]]]]].
+        destruct (sp_swap_any final (a ++ new1) m1 s1 I1 Vf1') as [new2 [s2 [c2 [E2 [V2 [D2 [I2 [K2 R2]]]]]]]].
         set (m2 := if final =? 0 then m1 else st_swap m1 final) in *.
         rewrite E2.
         assert (Lv1 : (pos final < length (view m1))%nat).
@@ -210,14 +214,14 @@ Theorem reorder_place_correct_thm : forall ops a m s,
     place Z.eqb false (zlen ops) ops 0 a m s 0 = Ok (a ++ new, m', s', cost) /\
     skipn (length m' - length ops) m' = ops /\
     length m' = length m /\ (forall x, In x m -> In x m') /\
-    forallb depth_ok new = true /\ sp_inv s' /\
+    forallb depth_ok new = true /\ sp_inv s' /\ (forall d, live_inv s d -> live_inv s' d) /\
     forall mm, exists mm', run new (view m, mm) = Some (view m', mm').
 Proof.
   intros ops a m s Hi Hnd Hin Hlen.
-  destruct (place_correct_gen ops [] a m s 0 Hi Hnd Hin Hlen) as [new [m' [s' [cost [E [P [L [In' [D [I' R]]]]]]]]]].
+  destruct (place_correct_gen ops [] a m s 0 Hi Hnd Hin Hlen) as [new [m' [s' [cost [E [P [L [In' [D [I' [K R]]]]]]]]]]].
   { intros j Hj. simpl in Hj. lia. }
   simpl in E, P. exists new, m', s', cost. split; [exact E|].
-  split; [|split; [exact L|split; [exact In'|split; [exact D|split; [exact I'|exact R]]]]].
+  split; [|split; [exact L|split; [exact In'|split; [exact D|split; [exact I'|split; [exact K|exact R]]]]]].
   (* the top |ops| items, read bottom-first, are ops *)
   set (n := length ops) in *.
   apply nth_ext with (d := 0) (d' := 0).
@@ -297,7 +301,7 @@ Proof.
   destruct (sort_by_depth_ok m ops [] Hin) as [order [Es Ho]]. rewrite Es.
   rewrite (reduce_all_id order ops a m s d).
   2:{ intros x Hx. apply Hdp. apply Ho in Hx. destruct Hx as [Hx|[]]. exact Hx. }
-  destruct (reorder_place_correct_thm ops a m s Hi Hnd Hin Hlen) as [new [m' [s' [cost [E [Sk [L [In' [D [I' R]]]]]]]]]].
+  destruct (reorder_place_correct_thm ops a m s Hi Hnd Hin Hlen) as [new [m' [s' [cost [E [Sk [L [In' [D [I' [_ R]]]]]]]]]]].
   rewrite E. destruct (list_eq_dec Z.eq_dec (skipn (length m' - length ops) m') ops) as [_|N]; [|contradiction].
   exists new, m', s', cost.
   split; [reflexivity|]. split; [exact Sk|]. split; [exact L|]. split; [exact In'|]. split; [exact D|]. split; [exact I'|exact R].
